@@ -449,46 +449,124 @@ func evaluatorConstruction(c *Ctx, rule string) {
 	if n == 0 {
 		c.ok(rule, "single-constructor", p.Pos(ne.Pos()), "every Evaluator comes from NewEvaluator")
 	}
-	for _, name := range []string{"addRuntimeFunctions", "(*Evaluator).addProgramFunctions", "(*Evaluator).readRules"} {
-		f := p.LangFunc(name)
-		if f == nil && strings.HasSuffix(name, "readRules") {
-			// the partitioning may be written out in the constructor itself
-			inline := false
-			for _, st := range storesToField(ne, "Evaluator", "patternRules", false) {
-				if strings.HasPrefix(p.Render(st.Val), "append(") {
-					inline = true
-				}
-			}
-			c.check(inline, rule, "installed-by-constructor "+name, p.Pos(ne.Pos()), "the constructor partitions the rules itself", "neither a readRules method nor the constructor itself fills the rule lists")
-			continue
-		}
-		if f == nil {
-			c.undecided(rule, "installer "+name, "", "anchor not found")
-			continue
-		}
-		sites := p.CallSitesOf(f)
-		inCtor := 0
-		var elsewhere []string
-		for _, cs := range sites {
-			if p.inTestFile(cs.Parent()) {
+	// what the constructor must install, recognised by its effect (not by the helper's name):
+	// the runtime functions (map stores under the constant names printf / json / num), the program's
+	// functions (a map store of a function value inside a loop over the program's Functions) and the
+	// rule lists (stores to Evaluator.patternRules). Each effect must lie in the constructor or in a
+	// function it calls on every path (directly or through one intermediate call).
+	type installer struct {
+		name string
+		find func(fn *ssa.Function) ssa.Instruction // the instruction that must be reached on every path (a loop header's If for loops)
+	}
+	loopAnchor := func(in ssa.Instruction) ssa.Instruction {
+		// the outermost loop header whose loop contains the instruction (a block that dominates it, has a
+		// back edge, and can be reached again from it)
+		var best *ssa.BasicBlock
+		for _, b := range in.Parent().Blocks {
+			if len(b.Instrs) == 0 || !b.Dominates(in.Block()) {
 				continue
 			}
-			if cs.Parent() == ne {
-				inCtor++
-				covers := true
-				for _, r := range returnsOf(ne) {
-					if !dominatesInstr(cs, r) {
-						covers = false
-					}
+			back := false
+			for _, pr := range b.Preds {
+				if b.Dominates(pr) {
+					back = true
 				}
-				c.check(covers, rule, "installed-by-constructor "+name, p.InstrPos(cs), "called on every path of the constructor", "the constructor does not call "+name+" on every path to its return")
-			} else {
-				elsewhere = append(elsewhere, shortName(cs.Parent()))
+			}
+			if !back || !(in.Block() == b || reachableFrom([]*ssa.BasicBlock{in.Block()}, nil)[b]) {
+				continue
+			}
+			if best == nil || b.Dominates(best) {
+				best = b
 			}
 		}
-		if inCtor == 0 {
-			c.violated(rule, "installed-by-constructor "+name, p.Pos(ne.Pos()), "NewEvaluator does not call "+name+" (called from {"+strings.Join(dedup(elsewhere), ", ")+"} instead): an evaluator built for a root selector lacks it, so `-r 'num($.x)'` fails where `BEGINFILE { $ = num($.x) }` works")
+		if best == nil {
+			return in
 		}
+		return best.Instrs[len(best.Instrs)-1]
+	}
+	installers := []installer{
+		{"runtime functions", func(fn *ssa.Function) ssa.Instruction {
+			seen := map[string]ssa.Instruction{}
+			allInstrs(fn, func(in ssa.Instruction) {
+				if mu, ok := in.(*ssa.MapUpdate); ok {
+					if k, ok := constString(mu.Key); ok && (k == "printf" || k == "json" || k == "num") {
+						seen[k] = in
+					}
+				}
+			})
+			if len(seen) == 3 {
+				return seen["printf"]
+			}
+			return nil
+		}},
+		{"program functions", func(fn *ssa.Function) ssa.Instruction {
+			var out ssa.Instruction
+			allInstrs(fn, func(in ssa.Instruction) {
+				if mu, ok := in.(*ssa.MapUpdate); ok && strings.Contains(p.Render(mu.Value), "Tag: ValueFn") && strings.Contains(p.Render(mu.Value), ".Functions[") {
+					out = loopAnchor(in)
+				}
+			})
+			return out
+		}},
+		{"rule lists", func(fn *ssa.Function) ssa.Instruction {
+			var out ssa.Instruction
+			for _, st := range storesToField(fn, "Evaluator", "patternRules", false) {
+				if strings.HasPrefix(p.Render(st.Val), "append(") {
+					out = loopAnchor(st)
+				}
+			}
+			return out
+		}},
+	}
+	coversReturns := func(fn *ssa.Function, in ssa.Instruction) bool {
+		for _, r := range returnsOf(fn) {
+			if !dominatesInstr(in, r) {
+				return false
+			}
+		}
+		return true
+	}
+	for _, inst := range installers {
+		var where []string
+		okInst := false
+		pos := p.Pos(ne.Pos())
+		for _, fn := range p.Funcs {
+			if !p.InLang(fn) || p.inTestFile(fn) {
+				continue
+			}
+			anchor := inst.find(fn)
+			if anchor == nil {
+				continue
+			}
+			where = append(where, shortName(fn))
+			if !coversReturns(fn, anchor) {
+				continue
+			}
+			// fn is the constructor, or called by it on every path (at most one call in between)
+			reaches := func(callee *ssa.Function, depth int) bool { return false }
+			reaches = func(callee *ssa.Function, depth int) bool {
+				if callee == ne {
+					return true
+				}
+				if depth > 1 {
+					return false
+				}
+				for _, cs := range p.CallSitesOf(callee) {
+					if p.inTestFile(cs.Parent()) {
+						continue
+					}
+					if coversReturns(cs.Parent(), cs) && reaches(cs.Parent(), depth+1) {
+						return true
+					}
+				}
+				return false
+			}
+			if reaches(fn, 0) {
+				okInst = true
+				pos = p.InstrPos(anchor)
+			}
+		}
+		c.check(okInst, rule, "installed-by-constructor "+inst.name, pos, "installed on every path of the constructor", "NewEvaluator does not install the "+inst.name+" on every path to its return (the installing code is in {"+strings.Join(dedup(where), ", ")+"}): an evaluator built for a root selector lacks them, so `-r 'num($.x)'` fails where `BEGINFILE { $ = num($.x) }` works")
 	}
 }
 
